@@ -82,10 +82,16 @@ impl Bucket {
         // See if any lower priority nodes are present in the table, we cant do
         // nodes that have equal status because we have to prefer longer lasting
         // nodes in the case of a good status which helps with stability.
+        // Among those take the one with the lowest status (the first one if there are several):
+        // a questionable node must not be evicted while the bucket still has an unused or bad slot.
         let replace_index = self
             .nodes
             .iter()
-            .position(|node| node.status() < new_node_status);
+            .enumerate()
+            .map(|(index, node)| (index, node.status()))
+            .filter(|(_, status)| *status < new_node_status)
+            .min_by_key(|(_, status)| *status)
+            .map(|(index, _)| index);
         if let Some(index) = replace_index {
             self.nodes[index] = new_node;
 
